@@ -84,10 +84,10 @@ Proof.
     exists nt, ps. split; [reflexivity|].
     destruct t as [ts|].
     + destruct (set_parent_ids g ts ps) as [ts'|e] eqn:E; [|discriminate].
-      cbn [tag_step] in H. injection H as <- <- <-. cbn. repeat split; try reflexivity.
+      injection H as <- <- <-. cbn. repeat split; try reflexivity.
       * exists ts'. split; reflexivity.
       * eexists. split; [reflexivity|]. split; reflexivity.
-    + cbn [tag_step] in H. injection H as <- <- <-. cbn. repeat split; try reflexivity.
+    + injection H as <- <- <-. cbn. repeat split; try reflexivity.
       eexists. split; [reflexivity|]. split; reflexivity.
   - destruct (match m with Some mb => negb (opt_eqb (tip b) (tip mb)) | None => false end) eqn:OOD;
       [discriminate|].
@@ -102,12 +102,10 @@ Proof.
       cbn. split; [reflexivity|]. split; [reflexivity|]. apply negb_false_iff in OOD. exact OOD. }
     destruct t as [ts|].
     + destruct (set_parent_ids g ts ps) as [ts'|e] eqn:E; [|discriminate].
-      destruct (tag_step m keep _) as [u|e]; [|discriminate].
       injection H as <- <- <-. cbn. repeat split; try reflexivity.
       * exists ts'. split; reflexivity.
       * destruct m as [mb|]; [|reflexivity]. apply (M (fun mb => if keep then tagd mb else _)).
-    + destruct (tag_step m keep _) as [u|e]; [|discriminate].
-      injection H as <- <- <-. cbn. repeat split; try reflexivity.
+    + injection H as <- <- <-. cbn. repeat split; try reflexivity.
       destruct m as [mb|]; [|reflexivity]. apply (M (fun mb => if keep then tagd mb else _)).
 Qed.
 
@@ -318,47 +316,30 @@ Proof.
     rewrite app_length. cbn. lia.
 Qed.
 
-(* ---- bound branches and tags: the clause that fails ------------------------------------ *)
+(* ---- bound branches and tags (after commit 495a382) --------------------------------------- *)
 
-Lemma filter_none_all {A} (f : A -> bool) (l : list A) :
-  filter f l = [] -> filter (fun x => negb (f x)) l = l.
-Proof.
-  induction l as [|x l IH]; cbn; intros H; [reflexivity|].
-  destruct (f x); [discriminate|]. cbn. rewrite IH; [reflexivity | exact H].
-Qed.
-
-(* on a bound branch (not local) uncommit never drops a tag: it succeeds only
-   when there was no tag to drop *)
-Theorem bound_ok_no_tag_removed g b t mb k b' t' m' :
-  uncommit g b t (Some mb) k false false = Ok (b', t', m') -> tagd b' = tagd b.
+(* the names of the tags uncommit removes from the branch are also removed from the
+   master (bound or local=True alike: BasicTags.delete_tag does it) *)
+Theorem bound_master_tags g b t mb k loc b' t' m' :
+  uncommit g b t (Some mb) k false loc = Ok (b', t', m') ->
+  exists nt ps mb', plan g b (option_map tparents t) k = Ok (nt, ps) /\ m' = Some mb' /\
+    tagd b' = remove_tags g (tagd b) (tip b) ps /\
+    tagd mb' = delete_names (map fst (filter (fun nr => removed_tag g (tip b) ps nr) (tagd b))) (tagd mb).
 Proof.
   unfold uncommit. intros H.
-  destruct (negb (opt_eqb (tip b) (tip mb))); [discriminate|].
-  destruct (plan g b (option_map tparents t) k) as [[nt ps]|e]; [|discriminate].
-  assert (X : tag_step (Some mb) false
-                (map fst (filter (fun nr => removed_tag g (tip b) ps nr) (tagd b))) = Ok tt ->
-              remove_tags g (tagd b) (tip b) ps = tagd b).
-  { unfold tag_step. cbn [negb andb].
-    destruct (map fst (filter (fun nr => removed_tag g (tip b) ps nr) (tagd b))) as [|a l] eqn:E;
-      [|discriminate].
-    intros _. apply map_eq_nil in E. unfold remove_tags. apply filter_none_all. exact E. }
-  destruct t as [ts|].
-  - destruct (set_parent_ids g ts ps) as [ts'|e]; [|discriminate].
-    destruct (tag_step (Some mb) false _) as [[]|e] eqn:TS; [|discriminate].
-    injection H as <- _ _. cbn. apply X. reflexivity.
-  - destruct (tag_step (Some mb) false _) as [[]|e] eqn:TS; [|discriminate].
-    injection H as <- _ _. cbn. apply X. reflexivity.
-Qed.
-
-(* witness: a bound branch in step with its master, one tag on the tip *)
-Theorem bound_tags_refuted :
-  exists g b ts mb,
-    wf_dag g = true /\ opt_eqb (tip b) (tip mb) = true /\
-    uncommit g b (Some ts) None 1 false false = Ok (mkS (Some 0) 1 [], Some (mkT [0] []), None) /\
-    uncommit g b (Some ts) (Some mb) 1 false false = Err LockContention.
-Proof.
-  exists [[]; [0]], (mkS (Some 1) 2 [(0, 1)]), (mkT [1] []), (mkS (Some 1) 2 [(0, 1)]).
-  repeat split; reflexivity.
+  destruct loc.
+  - cbn [negb] in H.
+    destruct (plan g b (option_map tparents t) k) as [[nt ps]|e]; [|discriminate].
+    exists nt, ps. destruct t as [ts|].
+    + destruct (set_parent_ids g ts ps) as [ts'|e]; [|discriminate].
+      injection H as <- _ <-. eexists. repeat split.
+    + injection H as <- _ <-. eexists. repeat split.
+  - destruct (negb (opt_eqb (tip b) (tip mb))); [discriminate|].
+    destruct (plan g b (option_map tparents t) k) as [[nt ps]|e]; [|discriminate].
+    exists nt, ps. destruct t as [ts|].
+    + destruct (set_parent_ids g ts ps) as [ts'|e]; [|discriminate].
+      injection H as <- _ <-. eexists. repeat split.
+    + injection H as <- _ <-. eexists. repeat split.
 Qed.
 
 (* ---- the round trip in a bound branch, with --local ------------------------------------ *)
@@ -405,7 +386,7 @@ Proof.
   rewrite (walk_after_commit g ps n W F V Hpres).
   rewrite parents_back.
   rewrite set_parent_ids_ok.
-  - cbn [tfiles tag_step].
+  - cbn [tfiles].
     rewrite (filter_parents_heads (g ++ [ps]) g ps (heads_extend g ps ps W W' F (ps_not_new g ps V))), Hfp.
     rewrite (tags_survive g ps tags W' Htags), (nothing_removed g ps tags W' Htags).
     cbn [map]. rewrite delete_no_names. subst tipb. destruct mb as [mt mr mtags].
